@@ -219,6 +219,36 @@ impl RefCountTable {
 		Ok(EMPTY_ENTRIES)
 	}
 
+	/// Verification hook: every non-empty entry of the table as `entries` reports it (log
+	/// overlay first, then the file), as (node address, count); all-zero chunks of the file
+	/// are skipped without being decoded.
+	#[cfg(pdb_verif)]
+	pub fn verif_nonempty_entries(&self, log: &impl LogQuery) -> Result<Vec<(u64, u64)>> {
+		let mut out = Vec::new();
+		let map = self.map.read();
+		for c in 0..self.id.total_chunks() {
+			let entries = if let Some(entries) =
+				log.ref_count(self.id, c, |chunk| *Self::transmute_chunk(chunk))
+			{
+				entries
+			} else if let Some(map) = &*map {
+				let chunk = Self::chunk_at(c, map)?;
+				if chunk.0 == EMPTY_CHUNK.0 {
+					continue
+				}
+				*Self::transmute_chunk(chunk)
+			} else {
+				continue
+			};
+			for e in entries.iter() {
+				if !e.is_empty() {
+					out.push((e.address().as_u64(), e.ref_count()));
+				}
+			}
+		}
+		Ok(out)
+	}
+
 	pub fn table_entries(&self, chunk_index: u64) -> Result<[Entry; CHUNK_ENTRIES]> {
 		if let Some(map) = &*self.map.read() {
 			let chunk = Self::chunk_at(chunk_index, map)?;
